@@ -4,6 +4,7 @@ import (
 	"encoding/json"
 	"fmt"
 	"math"
+	"time"
 
 	"github.com/Trendyol/go-dcp/config"
 	"github.com/couchbase/gocbcore/v10"
@@ -344,11 +345,43 @@ func init() {
 			// vb0 (node0) gets a transient end, vb1 (node1) a final one, vb2 (node0) keeps receiving events
 			tc := endCauses[vrt.Choose(5, true, "transient-cause")]
 			fc := endCauses[5+vrt.Choose(4, true, "final-cause")]
+			allOthers := vrt.Choose(2, true, "vb2-ends-too") == 1
+			slowReopen := vrt.Choose(2, true, "slow-reopen") == 1
+			if slowReopen {
+				// the re-open round trip of vb0 takes a while: the other ends are processed meanwhile
+				opens := 0
+				c.Fault = func(r *gocbcore.SimRequest) gocbcore.SimAnswer {
+					if r.Kind == "openstream" && r.Vb == 0 {
+						opens++
+						return gocbcore.SimAnswer{Kind: "delay", Delay: 500 * time.Millisecond}
+					}
+					return gocbcore.SimAnswer{}
+				}
+			}
 			vrt.Window(true)
 			c.Append(0, marker(1, 1), symbolPacket("M", 1))
 			c.Append(2, marker(1, 2), symbolPacket("M", 1), symbolPacket("M", 2))
 			c.EndStream(0, tc.err)
 			c.EndStream(1, fc.err)
+			if allOthers {
+				c.EndStream(2, fc.err)
+				vrt.Sleep(3e9)
+				vrt.Quiesce()
+				c.WaitIdle()
+				vrt.Quiesce()
+				vrt.Window(false)
+				if got := activeCount(e); got != 1 {
+					vrt.Failf("transient end of vb0 (%s), final end of vb1 and vb2 (%s) while vb0 is being re-opened (slow=%v): active stream count %d, want 1", tc.name, fc.name, slowReopen, got)
+				}
+				if vrt.Closed(e.StopCh) {
+					vrt.Failf("the client stopped on its own although vb0 only ended transiently (%s) and has been re-opened (slow re-open=%v)", tc.name, slowReopen)
+				}
+				if !c.StreamOpen(0) {
+					vrt.Failf("vb0 is not streamed after its transient end")
+				}
+				vrt.SetOutcome(fmt.Sprintf("all-others %s/%s slow=%v", tc.name, fc.name, slowReopen))
+				return
+			}
 			c.Append(2, marker(3, 3), symbolPacket("M", 3))
 			vrt.Sleep(3e9)
 			vrt.Quiesce()
